@@ -306,6 +306,14 @@ fn main() {
             let cheap = (m as u32) <= 13 && (t as u64) * (1u64 << m.min(13)) <= 1 << 15;
             let should_refuse = t > 32 || p > 32 || m > 21;
             if !cheap && !should_refuse { continue; }
+            // the full grid of the thorough tier has about a million sets above the ceilings; each costs a child process, so they
+            // are probed on and next to the ceilings and at the far ends (a gate is a comparison per parameter)
+            if thorough && should_refuse && !cheap {
+                let te = t <= 32 || [33u8, 34, 48, 64, 128, 255].contains(&t);
+                let pe = p <= 32 || [33u8, 64, 255].contains(&p);
+                let me = m <= 21 || [22u8, 23, 24, 31, 32, 40, 64, 128, 255].contains(&m);
+                if !(te && pe && me) || (t <= 32 && t % 8 != 0 && t != 1 && t != 31) { continue; }
+            }
             let s2k = StringToKey::Argon2 { salt: [1; 16], t, p, m_enc: m };
             // parameter sets that would need more than 2 GiB if let through are probed in a child process with an
             // address-space limit, so that a broken gate shows as a refused allocation instead of taking the machine
